@@ -87,12 +87,21 @@ class Rec:
         }
 
 
+# Observation rescaling for "numerically special" workloads: a case whose data were multiplied by an exact power of two s (tiny
+# coefficient arrays, a tiny constant factor) sets SCALE_INV[0] = 1/s; observed and reference values are both multiplied by it before
+# the comparison, so that the absolute floor of the tolerance (max(1, |ref|)) does not hide a dropped tiny term.  Multiplication by a
+# power of two is exact in IEEE arithmetic, so a correct implementation is unaffected.
+SCALE_INV = [1.0]
+
+
 def close(got, ref, rtol, mag=0.0):
     """|got-ref| <= rtol*max(1,|ref|) + 1e-13*mag ; returns (ok, discrepancy)."""
     try:
         got = float(got)
     except (TypeError, ValueError):
         return False, math.inf
+    if SCALE_INV[0] != 1.0:
+        got, ref = got * SCALE_INV[0], float(ref) * SCALE_INV[0]
     if got != got or ref != ref:
         return (got != got and ref != ref), math.inf
     if math.isinf(got) or math.isinf(ref):
